@@ -104,6 +104,33 @@ def tagged(src, tag):
     return res
 
 
+class Lines:
+    """Random access to the lines of a (possibly multi-gigabyte) ndjson file without holding it in memory."""
+
+    def __init__(self, path):
+        self.path = path
+        import array
+        self.off = array.array("q")
+        pos = 0
+        with open(path, "rb") as f:
+            for l in f:
+                self.off.append(pos)
+                pos += len(l)
+        self.f = open(path, "rb")
+
+    def __len__(self):
+        return len(self.off)
+
+    def __bool__(self):
+        return len(self.off) > 0
+
+    def __getitem__(self, i):
+        if i < 0:
+            i += len(self.off)
+        self.f.seek(self.off[i])
+        return self.f.readline().decode()
+
+
 def shard_trace(trace, nshards, workdir, reset_prefix='{"ev":"reset"'):
     """Split an ndjson trace at `reset` boundaries into <= nshards files; returns [(path, first_line_no)]."""
     with open(trace) as f:
